@@ -240,6 +240,9 @@ func newExec(t *testing.T) func([]string) string {
 			var parts []string
 			capOK := true
 			udp.VerifDeliverSegments(func(ap netip.AddrPort, b []byte) {
+				if len(parts) > len(row)+1 {
+					panic("deliverSegments does not terminate: more deliveries than payload bytes")
+				}
 				if ap != from {
 					capOK = false
 				}
@@ -257,6 +260,9 @@ func newExec(t *testing.T) func([]string) string {
 			row := pat[:ln]
 			var parts []string
 			udp.VerifDeliverSegments(func(ap netip.AddrPort, b []byte) {
+				if len(parts) > len(row)+1 {
+					panic("deliverSegments does not terminate: more deliveries than payload bytes")
+				}
 				off := -1
 				if len(b) == 0 {
 					off = 0
